@@ -9,6 +9,7 @@ import (
 	"bytes"
 	"encoding/json"
 	"fmt"
+	"hash/fnv"
 	"math"
 	"sort"
 	"strconv"
@@ -269,6 +270,134 @@ func (t *Table) Text(n Node) string {
 		panic(err)
 	}
 	return strings.TrimSuffix(b.String(), "\n")
+}
+
+// Spell returns another spelling of the JSON text of n - the same document to any JSON reader: indented, CRLF line
+// ends, surrounding blanks with the members of objects in reverse key order, numbers in exponent form, strings and
+// keys with every ASCII letter and digit as a \u escape.  The variant is a function of the text, so a replay sees
+// the same spelling.  negz (see TextNZ) composes with it.
+func (t *Table) Spell(n Node, negz bool) string {
+	if n.IsVoid() {
+		return ""
+	}
+	r, ok := t.Raw(n)
+	if !ok {
+		panic("void inside a document")
+	}
+	if negz {
+		r = negZero(r)
+	}
+	plain := t.Text(n)
+	if len(plain) > 2048 {
+		if negz {
+			return t.TextNZ(n)
+		}
+		return plain
+	}
+	h := fnv.New32a()
+	h.Write([]byte(plain))
+	return spellWith(r, int(h.Sum32()%6))
+}
+
+func spellWith(r any, variant int) string {
+	var b strings.Builder
+	spellValue(&b, r, variant)
+	out := b.String()
+	switch variant {
+	case 1, 2:
+		var ib bytes.Buffer
+		if json.Indent(&ib, []byte(out), "", "\t") == nil {
+			out = ib.String() + "\n"
+		}
+		if variant == 2 {
+			out = strings.ReplaceAll(out, "\n", "\r\n")
+		}
+	case 3:
+		out = " \n\t" + out + "\n \n"
+	}
+	return out
+}
+
+func spellValue(b *strings.Builder, r any, variant int) {
+	switch v := r.(type) {
+	case nil:
+		b.WriteString("null")
+	case bool:
+		if v {
+			b.WriteString("true")
+		} else {
+			b.WriteString("false")
+		}
+	case float64:
+		if variant == 4 && !(v == 0 && math.Signbit(v)) {
+			b.WriteString(strconv.FormatFloat(v, 'E', -1, 64))
+		} else {
+			x, _ := json.Marshal(v)
+			b.Write(x)
+		}
+	case string:
+		spellString(b, v, variant)
+	case []any:
+		b.WriteByte('[')
+		for i, e := range v {
+			if i > 0 {
+				b.WriteByte(',')
+			}
+			spellValue(b, e, variant)
+		}
+		b.WriteByte(']')
+	case map[string]any:
+		keys := make([]string, 0, len(v))
+		for k := range v {
+			keys = append(keys, k)
+		}
+		sort.Strings(keys)
+		if variant == 3 {
+			for i, j := 0, len(keys)-1; i < j; i, j = i+1, j-1 {
+				keys[i], keys[j] = keys[j], keys[i]
+			}
+		}
+		b.WriteByte('{')
+		for i, k := range keys {
+			if i > 0 {
+				b.WriteByte(',')
+			}
+			spellString(b, k, variant)
+			b.WriteByte(':')
+			spellValue(b, v[k], variant)
+		}
+		b.WriteByte('}')
+	default:
+		panic(fmt.Sprintf("spell: unexpected %T", r))
+	}
+}
+
+func spellString(b *strings.Builder, s string, variant int) {
+	if variant != 5 {
+		var x bytes.Buffer
+		enc := json.NewEncoder(&x)
+		enc.SetEscapeHTML(false)
+		enc.Encode(s)
+		b.WriteString(strings.TrimSuffix(x.String(), "\n"))
+		return
+	}
+	b.WriteByte('"')
+	for _, c := range s {
+		switch {
+		case c < 0x80 && (c >= 'a' && c <= 'z' || c >= 'A' && c <= 'Z' || c >= '0' && c <= '9' || c < 0x20 || c == '"' || c == '\\' || c == '/'):
+			fmt.Fprintf(b, "\\u%04x", c)
+		case c > 0xFFFF:
+			c -= 0x10000
+			fmt.Fprintf(b, "\\u%04x\\u%04x", 0xD800+(c>>10), 0xDC00+(c&0x3FF))
+		case c == 0xFFFD:
+			// an invalid byte in the Go string: leave it to the standard encoder
+			x, _ := json.Marshal(string(c))
+			b.WriteString(strings.Trim(string(x), "\""))
+		default:
+			b.WriteRune(c)
+		}
+	}
+	b.WriteByte('"')
 }
 
 // TextNZ is Text with every numeric zero written as -0: another spelling of the same number.
